@@ -10,16 +10,16 @@ NOTE_HIST = ("Sampling, not enumeration. Single driving goroutine: no schedule d
 claim("C01", CONC + "porcupine linearizability of recorded histories against a counting gate + conservation invariants at stable points",
       "Every Acquire/complete/SetLimit history of a seeded run is checked for linearizability against the atomic counting gate; thousands of schedules per run of the check. Exploration is the right level: the property quantifies over interleavings and limit trajectories, which are sampled with replayable seeds.",
       NOTE_CONC + " porcupine timeouts (5 s) are counted inconclusive.", "DESIGN.md §3 C01")
-claim("C02", CONC + "ledger-vs-every-layer conservation invariants at stable points and after draining, with timeouts/cancellations placed on release instants and slow callers (restricted F-lag)",
+claim("C02", CONC + "ledger-vs-every-layer conservation invariants at stable points and after draining, with timeouts / cancellations placed on release instants (also mid-operation), slow callers (F-lag, also while a timer is armed), formatting debug loggers, lock-deadlock detection",
       "Conservation is checked at every stable point of every run against an independent ledger, for all limiter stacks and all three outcomes, with give-ups coinciding with releases on the virtual clock.",
       NOTE_CONC, "DESIGN.md §3 C02")
-claim("C03", HIST + "lock-step reference gate for sequential histories incl. dynamic partitions; " + "porcupine linearizability for concurrent histories",
+claim("C03", HIST + "lock-step reference gate for sequential histories incl. dynamic partitions and keys differing from partition names; " + "porcupine linearizability for concurrent histories incl. a partition added concurrently (twice)",
       "Every result and every observable count/limit is compared with an executable partition gate after each operation (exact dyadic shares); concurrent histories are checked for linearizability against the same gate.",
       NOTE_CONC + " Fractions are k/32 so ceil() is float-exact.", "DESIGN.md §3 C03")
 claim("C04", HIST + "bounds oracle after every sample, panics recovered",
       "Each valid configuration/wrapper combination is driven through fault-structured sample histories (rtt 0, huge, drop-only windows, idle, clock jumps) and the estimate is checked after every sample.",
       NOTE_HIST, "DESIGN.md §3 C04")
-claim("C05", CONC + "enforced-limit == estimate invariant at stable points for all strategy kinds (dynamic partitions, F-lag) + state-based check of every completed update (incl. a settable limit changed from outside)",
+claim("C05", CONC + "enforced-limit == estimate invariant right after construction (both public constructors) and at stable points for all strategy kinds (dynamic partitions, F-lag, debug loggers) + state-based check of every completed update (incl. a settable limit changed from outside)",
       "Window-closing completions race under seeded schedules; at every stable point the strategy limit, partition shares and limit gauges must equal the floored estimate.",
       NOTE_CONC, "DESIGN.md §3 C05")
 claim("C06", HIST + "never-raises check on every drop sample (exact AIMD arithmetic) + bounded-liveness suffix of sustained drops; concurrent AIMD samples must be serializable (seeded schedules)",
@@ -34,10 +34,10 @@ claim("C08", HIST + "relational twin-run oracle (same seed, same prefix, final s
 claim("C09", HIST + "virtual-clock reference window model predicting every delegate call and its arguments",
       "The DefaultLimiter is driven on the synctest fake clock (exact durations incl. 0 and threshold equality) and the WindowedLimit with caller-supplied clocks; a reference fold predicts every update of the algorithm exactly.",
       NOTE_HIST, "DESIGN.md §3 C09")
-claim("C10", CONC + "stable-point invariant 'no caller blocked while capacity is free' with releases forced into the attempt-failed/asleep window",
+claim("C10", CONC + "stable-point invariant 'no caller blocked while capacity is free' with releases forced into the attempt-failed/asleep window and cancellations landing on release instants in the middle of Acquire",
       "The scheduler parks waiters at every scheduling point between the failed attempt and going to sleep and runs whole releases inside that window; no timeout or cancellation is injected before the check.",
       NOTE_CONC, "DESIGN.md §3 C10")
-claim("C11", CONC + "scripted arrival orders + reference backlog list for every constructor, incl. expiries, cancellations and releases racing with a late caller that may barge in",
+claim("C11", CONC + "scripted arrival orders + reference backlog list for every constructor, incl. expiries, cancellations, releases racing with a late caller that may barge in, and a partitioned delegate that refuses the head while it would admit a later waiter",
       "Arrival order is pinned by running each arrival to a stable point; after each release the grantee must be the reference backlog's oldest/newest, for every way of constructing the limiter.",
       NOTE_CONC, "DESIGN.md §3 C11")
 claim("C12", CONC + "blocked-callers <= max backlog at every quiescent point, queue_size gauge == blocked callers at stable points, sequential-model check of solo Acquires",
@@ -61,7 +61,7 @@ claim("C17", CONC + "Go race detector as oracle in a -race build, with the sched
 claim("C18", HIST + "reference folds per primitive, permutation check for the sample window, Reset==fresh twin oracle, change-flag check; concurrent Add/Update/Reset must be serializable (seeded schedules)",
       "Each primitive is driven through Add/Get/Reset/Update histories and compared with a reference fold written from its name; reset instances are compared with fresh twins.",
       NOTE_HIST, "DESIGN.md §3 C18")
-claim("C19", CONC + "held <= limit at every quiescent point and everybody-served at the end of the schedule, for both pools and all orderings",
+claim("C19", CONC + "held <= limit at every quiescent point and everybody-served at the end of the schedule, for both pools and all orderings, plus a serial caller driving the pool through a sampling window",
       "More callers than the limit arrive (within the backlog bound) with hold times far below the backlog timeout; every caller must be granted.",
       NOTE_CONC, "DESIGN.md §3 C19")
 claim("C20", CONC + "real go-metrics and datadog statsd client inside the bubble over an in-memory writer, poller goroutine scheduled like a task; " + "recording registry for metric truthfulness",
